@@ -2,6 +2,7 @@
 import fi_rules as F
 import cowrite
 import generic_lints
+import predicates
 import twins
 import triggers
 import dead_reads
@@ -18,6 +19,7 @@ def run(facts, tier):
         ("reader dead-reads", lambda fa: [o for o in dead_reads.obligations(fa) if "frequent_items_sketch" in o["key"]], 10, "every field the frequent-items readers take from the image (total weight, offset, weights, items) reaches the restored sketch on every accepting path"),
         ("state table initialised", lambda fa: [o for o in c19_rules.full_init(fa) if o["key"].startswith("reverse_purge_hash_map")], 3, "the slot-state array of the hash map is initialised over its whole extent in constructors, copies and resize (phantom items otherwise)"),
         ("couplings", lambda fa: cowrite.obligations(fa, ['frequent_items_sketch', 'reverse_purge_hash_map']), 8, "fields that every mutator updates together (counters, extremes, cached values) are still updated together"),
+        ("emptiness predicate support", lambda fa: predicates.obligations(fa, ['frequent_items_sketch']), 3, "the emptiness predicate still consults every field it depended on in the reviewed tree (spec/predicates.json)"),
         ("tautologies", lambda fa: generic_lints.tautologies(fa, ('fi/',)), 2, "no comparison / assignment / min-max with two identical operands, no if-else with identical arms"),
         ("duplicate operands", lambda fa: generic_lints.duplicate_conjuncts(fa, ('fi/',)), 2, "no logical chain tests the same operand twice (copy-paste of the wrong peer)"),
         ("overload twins", lambda fa: twins.overload_twins(fa, ('fi/',)), 1, "const& and && overloads of one operation have identical bodies modulo std::move/forward"),
